@@ -184,12 +184,12 @@ class CondvarObj:
         self.variant = None
 
 
-@model(r"^Mutex::<.*>::new$|^std::sync::Mutex::<.*>::new$|^RwLock::<.*>::new$")
+@model(r"^Mutex::<.*>::new$|^std::sync::Mutex::<.*>::new$|^(std::sync::)?RwLock::<.*>::new$")
 def mutex_new(e, c, a):
     return MutexObj(a[0])
 
 
-@model(r"^Mutex::<.*>::lock$|^std::sync::Mutex::<.*>::lock$|^RwLock::<.*>::(read|write)$")
+@model(r"^Mutex::<.*>::lock$|^std::sync::Mutex::<.*>::lock$|^(std::sync::)?RwLock::<.*>::(read|write)$")
 def mutex_lock(e, c, a):
     m = deref_all(e, a[0])
     s = getattr(e, "sched", None)
